@@ -884,8 +884,9 @@ def term_str(t):
 
 class DB:
     """All facts of one build configuration (tag): one or more crates."""
-    def __init__(self, tag, files):
+    def __init__(self, tag, files, inline=None):
         self.tag = tag
+        self.view = inline or "base"
         self.fns = {}
         self.adts = {}
         self.impls = []
@@ -915,6 +916,108 @@ class DB:
         self._callers = None
         self._children = None
         self._by_trait_item = None
+        self._normalize_flag_enums()
+        self.inlined = []
+        if inline:
+            self._inline_private_helpers(inline)
+
+    def _normalize_flag_enums(self):
+        """A crate-private enum with exactly two field-less variants is a bool by another name (`armed: bool` <->
+        `state: CleanupState { Pending, Done }`).  Rules about flags speak of two-valued fields, tests on them and constant
+        stores into them, so such enums are presented as bool: variant #0 -> false, variant #1 -> true; `discriminant(x)` becomes
+        `x`, a switch on it a bool switch, `E::V` a constant.  (Rules never rely on *which* variant is which: they compare with
+        the field's initial value.)"""
+        flags = {}
+        for k, a in self.adts.items():
+            if a.get("kind") != "Enum" or a.get("vis") == "Public" or not (a.get("crate") or "").startswith("ractor"):
+                continue
+            vs = a.get("variants") or []
+            if len(vs) == 2 and all(not v.get("fields") for v in vs):
+                flags[k] = [v["name"] for v in vs]
+        self.flag_enums = flags
+        if not flags:
+            return
+        for a in self.adts.values():
+            for v in a.get("variants") or []:
+                for fld in v.get("fields") or []:
+                    if fld.get("ty") in flags:
+                        fld["enum_ty"] = fld["ty"]
+                        fld["ty"] = "bool"
+        for f in self.fns.values():
+            touched = False
+            disc_locals = set()
+            for l in f.locals:
+                if l.get("ty") in flags:
+                    l["enum_ty"] = l["ty"]
+                    l["ty"] = "bool"
+                    touched = True
+            for b in f.blocks:
+                for st in b["stmts"]:
+                    if st.get("k") != "assign":
+                        continue
+                    rv = st["rv"]
+                    if rv.get("k") == "agg" and rv.get("adt") in flags and not rv.get("ops"):
+                        idx = rv.get("vidx")
+                        if idx is None:
+                            idx = flags[rv["adt"]].index(rv.get("variant")) if rv.get("variant") in flags[rv["adt"]] else 0
+                        st["rv"] = {"k": "use", "op": {"k": "const", "ty": "bool", "val": "true" if int(idx) == 1 else "false"}, "was_enum": rv.get("adt"), "variant": rv.get("variant")}
+                        touched = True
+                    elif rv.get("k") == "disc" and rv.get("adt") in flags:
+                        st["rv"] = {"k": "use", "op": {"k": "copy", "p": rv["p"]}, "was_disc": rv.get("adt")}
+                        if not st["lhs"][1]:
+                            disc_locals.add(st["lhs"][0])
+                        touched = True
+            if disc_locals:
+                for l in disc_locals:
+                    f.locals[l]["ty"] = "bool"
+                for b in f.blocks:
+                    t = b["term"]
+                    if t.get("k") == "switch" and t["discr"].get("k") in ("copy", "move") and not t["discr"]["p"][1] and t["discr"]["p"][0] in disc_locals:
+                        tg = {str(v): x for v, x in t["targets"]}
+                        t0 = tg.get("0", t["otherwise"])
+                        t1 = tg.get("1", t["otherwise"])
+                        t["targets"] = [["0", t0]]
+                        t["otherwise"] = t1
+                        t["dty"] = "bool"
+            if touched:
+                f._succ = f._pred = f._calls = f._defs = None
+                f._reach_cache = {}
+
+    def _inline_private_helpers(self, mode):
+        """replace each workspace body by the view in which its private, synchronous, non-anchor helpers are spliced in
+        (rules/inline.py); the helpers' own bodies stay"""
+        from .inline import inline_body
+        originals = dict(self.fns)
+        for fid, f in list(originals.items()):
+            if not (f.crate or "").startswith("ractor"):
+                continue
+            raw = inline_body(self, f, originals, self.inlined, mode)
+            if raw is not None:
+                nf = Fn(self, raw)
+                nf.crate = f.crate
+                nf.uninlined = f
+                self.fns[fid] = nf
+        # a private helper whose every call site was spliced into its caller no longer exists as a separate body in this
+        # view (who-may-call questions are then asked of the callers, which now contain its code)
+        from .inline import inlinable
+        gone = set(g for _, g in self.inlined)
+        for gid in gone:
+            g = originals.get(gid)
+            if g is None:
+                continue
+            still_called = False
+            for f in self.fns.values():
+                if f.id == gid:
+                    continue
+                for c in f.calls():
+                    if c.callee == gid or c.resolved == gid:
+                        still_called = True
+                        break
+                if still_called:
+                    break
+            if not still_called:
+                self.fns.pop(gid, None)
+                self.removed_helpers = getattr(self, "removed_helpers", []) + [gid]
 
     # lookups --------------------------------------------------------------------------
     def fn(self, id):
